@@ -20,16 +20,23 @@ LEVEL_TEXT = ("Lean 4 theorems about a hand-written executable model of the Make
               "parsing are parameters), tied to the code on every run by a differential run of the real loaders (JSON, YAML, Starlark, Makefile, "
               "script) against the compiled model and against each other. That the third-party JSON/YAML/Starlark parsers never panic or hang "
               "on corrupted input is FUZZING (byte-level corruption stream with recover + timeout), not proof.")
-LEVEL_NOTE = ("Proof covers scanners, enrichment, merge order-independence. Sampled: model = code (differential), cross-format agreement, "
+LEVEL_NOTE = ("Per clause: (1) cross-format agreement is PROVED for the modelled front ends (Makefile scanner, Starlark builtins) and TIE-ONLY for JSON/YAML "
+              "(third-party struct decoders); (2) order independence is proved over arrival orders of per-file results, workers themselves are not modelled; "
+              "(3) malformed => error is proved for the modelled malformations only; (4) no-panic is proved for the two scanners and holds by construction "
+              "for the modelled Starlark conversions; (5) no-hang is termination of the model's functions, everything else is exploration. "
+              "Proof covers scanners, enrichment, merge order-independence. Sampled: model = code (differential), cross-format agreement, "
               "worker-count independence. Fuzzed only: encoding/json, yaml.v3, go.starlark.net on corrupted bytes. Pkl loader excluded (needs the "
               "external pkl binary). Errors compared as error / no error.")
 TECHNIQUE = "Lean 4 proof over an executable model + cross-format differential correspondence + corruption fuzzing of the real loaders"
 OBLIGATIONS = [
-    "Grog.C16.scanner_total",
     "Grog.C16.scanner_no_index_error",
     "Grog.C16.script_scanner_no_index_error",
-    "Grog.C16.makefile_fields",
-    "Grog.C16.enrich_deterministic",
+    "Grog.C16.makefile_rules_load_in_order",
+    "Grog.C16.starlark_target_roundtrip",
+    "Grog.C16.makefile_starlark_agree",
+    "Grog.C16.makefile_undecodable_annotation_is_error",
+    "Grog.C16.makefile_annotated_non_rule_is_error",
+    "Grog.C16.starlark_wrong_type_is_error",
     "Grog.C16.merge_order_independent",
     "Grog.C16.load_ok_iff_labels_distinct",
     "Grog.C16.makefile_panic_witness",
@@ -649,6 +656,15 @@ def crash_part(ctx, tabs, rng, n, scratch):
     for name, text, d in typed:
         reqs.append({"op": "load.packages", "dir": scratch, "files": [[name, text]], "workers": 2, "timeout_s": 15})
         meta.append((name, "type:" + d.split("=")[0], text))
+    # a valid definition followed by trailing data: the file as a whole is malformed and must be rejected
+    for k in range(12 if ctx.tier == "quick" else 60):
+        dto = G.gen_package(rng, faults=False)
+        js, ym = G.render_json(dto, rng), G.render_yaml(dto)
+        for name, text in (("BUILD.json", js + rng.choice(["x", " garbage", "\n{", "\n]", "\n\"", "\n}}", " ,", "\n{\"targets\": 3}", "\n@"])),
+                           ("BUILD.yaml", ym + rng.choice(["---\n[\n", "---\nfoo: [1,\n", "---\n\"unterminated\n", "---\n{a: b\n", "...\n---\n- ]\n"])),
+                           ("BUILD.yaml", js + rng.choice(["\n---\n}", "\n---\n[1,"]))):
+            reqs.append({"op": "load.packages", "dir": scratch, "files": [[name, text]], "workers": 2, "timeout_s": 15})
+            meta.append((name, "trailing-garbage", text))
     for _ in range(n):
         name = rng.choice(FORMATS + ["x.grog.sh"])
         if name == "x.grog.sh":
@@ -678,6 +694,10 @@ def crash_part(ctx, tabs, rng, n, scratch):
             fz["outcome_error"] += 1
         else:
             fz["outcome_loaded"] += 1
+            if kind == "trailing-garbage":
+                ctx.violation(f"{name}: a valid package definition followed by garbage loads without an error (the trailing data is silently ignored)",
+                              {"kind": "oracle", "oracle": "a malformed BUILD file yields an error", "file": name, "corruption": kind, "text": text, "impl": r},
+                              signature="trailing-data-ignored:" + ("json" if name == "BUILD.json" else "yaml"))
     # a Starlark program that does not terminate in any reasonable time (own driver process: the evaluation keeps running)
     runaway = "def f():\n    for a in range(1000000):\n        for b in range(1000000):\n            for c in range(1000000):\n                pass\nf()\n"
     r = G.run_resilient(ctx, [{"op": "load.packages", "dir": scratch, "files": [["BUILD.star", runaway]], "workers": 1, "timeout_s": 6}])[0]
@@ -710,6 +730,104 @@ def crash_part(ctx, tabs, rng, n, scratch):
 
 # ----------------------------------------------------------------------------------------------
 
+def sval(v):
+    """python value -> protocol encoding of a Starlark value (dicts as {"d": [[k, v], ..]})"""
+    if isinstance(v, dict):
+        return {"d": [[sval(k), sval(x)] for k, x in v.items()]}
+    if isinstance(v, list):
+        return [sval(x) for x in v]
+    return v
+
+
+STAR_KEYS = {"deps": "dependencies", "excludes": "exclude_inputs", "checks": "output_checks", "env": "environment_variables"}
+
+
+def star_calls_of(dto):
+    """keyword calls of a generated package definition"""
+    calls = []
+    for t in dto["targets"]:
+        kw = [["name", t["name"]], ["command", t["command"]]]
+        for k in ("deps", "inputs", "excludes", "outputs", "tags"):
+            if t[k]:
+                kw.append([STAR_KEYS.get(k, k), list(t[k])])
+        if t["bin_output"]:
+            kw.append(["bin_output", t["bin_output"]])
+        if t["checks"]:
+            kw.append(["output_checks", [dict([("command", c)] + ([("expected_output", e)] if e else [])) for c, e in t["checks"]]])
+        for k in ("fingerprint", "env"):
+            if t[k]:
+                kw.append([STAR_KEYS.get(k, k), dict(t[k])])
+        if t["platforms"] is not None:
+            kw.append(["platforms", list(t["platforms"])])
+        if t["timeout"]:
+            kw.append(["timeout", t["timeout"]])
+        calls.append(("target", kw))
+    for a in dto["aliases"]:
+        calls.append(("alias", [["name", a["name"]], ["actual", a["actual"]]]))
+    return calls
+
+
+def starlark_part(ctx, rng, scratch):
+    """first-party Starlark builtins (target(), alias(), list / dict conversion): real loader vs model on keyword calls with every
+    field set to every wrongly (and rightly) typed value, unknown / repeated / missing keywords, and generated valid definitions."""
+    base = {"name": "a", "command": "c", "dependencies": [":b"], "inputs": ["a.txt"], "exclude_inputs": ["b.txt"], "outputs": ["o"], "bin_output": "bin/a",
+            "output_checks": [{"command": "true"}], "tags": ["t"], "fingerprint": {"k": "v"}, "platforms": ["linux/amd64"],
+            "environment_variables": {"E": "1"}, "timeout": "5s"}
+    extra_values = [{1: 2}, {"k": ""}, {"": "v"}, [""], [{"command": "c", "expected_output": ""}], [{"command": "c", "expected_output": None}],
+                    [{"command": "c", "x": 1}], [{1: "c"}], [{"command": None}], [[]], "x\ny", {"a": "1", "b": "2"}]
+    cases = []
+    for f in G.TARGET_FIELDS:
+        for v in G.WRONG_VALUES + extra_values:
+            kw = [[k, (v if k == f else x)] for k, x in base.items()]
+            cases.append([("target", kw)])
+    for f in G.TARGET_FIELDS:                                                 # a keyword left out / given twice / misspelt
+        cases.append([("target", [[k, x] for k, x in base.items() if k != f])])
+        cases.append([("target", [[k, x] for k, x in base.items()] + [[f, base[f]]])])
+        cases.append([("target", [[(k + "s" if k == f else k), x] for k, x in base.items()])])
+    for v in G.WRONG_VALUES:
+        cases.append([("alias", [["name", v], ["actual", ":a"]])])
+        cases.append([("alias", [["name", "al"], ["actual", v]])])
+    cases += [[("alias", [["name", "al"]])], [("alias", [["actual", ":a"]])], [("alias", [["name", "al"], ["actual", ":a"], ["extra", "x"]])],
+              [("target", [["name", "a"]]), ("target", [["name", "a"]])], []]
+    for _ in range(150 if ctx.tier == "quick" else 1500):
+        cases.append(star_calls_of(G.gen_package(rng, faults=False)))
+    texts = []
+    for calls in cases:
+        lines = [f"{fn}(" + ", ".join(f"{k} = {G.star_lit(v)}" for k, v in kw) + ")" for fn, kw in calls]
+        texts.append("\n".join(lines) + "\n")
+    mo = ctx.model([{"op": "loader.star", "calls": [{"fn": fn, "kw": [[k, sval(v)] for k, v in kw]} for fn, kw in calls]} for calls in cases])
+    io = G.run_resilient(ctx, [{"op": "load.file", "dir": scratch, "name": "BUILD.star", "text": t, "timeout_s": 10} for t in texts])
+    if io is None:
+        return
+    st = ctx.coverage.setdefault("starlark_builtins", {"cases": 0, "accepted": 0, "rejected": 0})
+
+    def norm(ts):
+        out = []
+        for t in ts:
+            t = dict(t)
+            t["fingerprint"] = sorted(t["fingerprint"]); t["env"] = sorted(t["env"])
+            out.append(t)
+        return out
+    for calls, text, m, i in zip(cases, texts, mo, io):
+        st["cases"] += 1
+        ctx.coverage["evaluations"] += 1
+        desc = bad_reply(i)
+        if desc:
+            ctx.violation(f"BUILD.star builtin call: {desc}", {"kind": "oracle", "oracle": "no panic / hang", "file": "BUILD.star", "text": text, "impl": i},
+                          signature=crash_signature("BUILD.star", desc, text))
+            continue
+        if "error" in m or "error" in i:
+            ctx.violation("driver error in the Starlark builtin correspondence", {"kind": "correspondence", "correspondence": "starlark builtins",
+                                                                                 "text": text, "impl": i, "model": m}, signature="corr:starlark", found_input=False)
+            continue
+        st["rejected" if m["err"] else "accepted"] += 1
+        same = bool(m["err"]) == bool(i["err"]) and (m["err"] or (norm(m["targets"]) == norm(i["dto"]["targets"]) and m["aliases"] == i["dto"]["aliases"]))
+        if not same:
+            ctx.violation("Starlark builtins: model and implementation disagree",
+                          {"kind": "correspondence", "correspondence": "StarlarkLoader target()/alias() vs GrogModel.Loader.starTarget/starAlias",
+                           "text": text, "impl": i, "model": m}, signature="corr:starlark", found_input=False)
+
+
 def cli_part(ctx):
     """clause "an error message and a non-zero exit, never a panic": the real grog binary on malformed workspaces"""
     import subprocess
@@ -718,6 +836,8 @@ def cli_part(ctx):
         return
     cases = [("valid", {"BUILD.json": '{"targets":[{"name":"a","command":"true"}]}'}, True),
              ("bad json", {"BUILD.json": '{"targets":[{"name":"a",'}, False),
+             ("json with trailing garbage", {"BUILD.json": '{"targets":[{"name":"a","command":"true"}]} }garbage'}, False),
+             ("yaml with a garbage second document", {"BUILD.yaml": "targets:\n- name: a\n  command: x\n---\n[1,\n"}, False),
              ("null entry", {"BUILD.json": '{"targets":[null]}'}, False),
              ("bad yaml", {"BUILD.yaml": "targets:\n  - name: [\n"}, False),
              ("yaml null entry", {"BUILD.yaml": "targets:\n- ~\n"}, False),
@@ -781,6 +901,7 @@ def run(ctx):
     if not multi_part(ctx, tabs, ctx.rng, n_multi, scratch):
         return
     crash_part(ctx, tabs, ctx.rng, n_crash, scratch)
+    starlark_part(ctx, ctx.rng, scratch)
     cli_part(ctx)
     ctx.coverage["traces_validated_against_impl"] = ctx.coverage["evaluations"]
     bad_yaml = [c for c, v in tabs.yaml.items() if isinstance(v, tuple)]
